@@ -117,27 +117,50 @@ def pending_blame(job):
 
 def match_known(pid, job, res, known):
     """A known finding lists the property, the diff kinds it explains and a machine-checkable
-    classifier of the failing history.  Returns the entry, or None (=> a new violation)."""
+    classifier of the failing history.  Every diff of the result must be explained by some listed
+    finding; returns the entry explaining the first one, or None (=> a new violation)."""
+    import re
     mine = [d for d in (res.get('diffs') or []) if d['kind'] in KINDS.get(pid, [])]
     ks = set(kinds_of(res)) & set(KINDS.get(pid, []))
-    for k in known:
-        if k.get('property') != pid or k.get('status') != 'known':
-            continue
-        if not ks or not ks <= set(k.get('kinds', [])):
-            continue
+    if not ks:
+        return None
+    cands = [k for k in known if k.get('property') == pid and k.get('status') == 'known'
+             and ('mode' not in k.get('classifier', {}) or k['classifier']['mode'] == job.get('mode', ''))]
+    if not mine:
+        # no diffs (died / step-error ...): the kinds alone decide
+        for k in cands:
+            if ks <= set(k.get('kinds', [])) and not (set(k.get('classifier', {})) - {'mode'}):
+                return k
+        return None
+    blame = None
+    dead = None
+
+    def explains(k, d):
+        nonlocal blame, dead
+        if d['kind'] not in k.get('kinds', []):
+            return False
         cl = k.get('classifier', {})
-        if 'mode' in cl and cl['mode'] != job.get('mode', ''):
-            continue
         if 'pending_accepted_how' in cl:
-            blame = pending_blame(job)
-            if not mine or not all(blame(d['what']) in cl['pending_accepted_how'] for d in mine):
-                continue
-        if 'what_regex' in cl:
-            import re
-            if not all(re.search(cl['what_regex'], d['what']) for d in mine):
-                continue
-        return k
-    return None
+            if blame is None:
+                blame = pending_blame(job)
+            if blame(d['what']) not in cl['pending_accepted_how']:
+                return False
+        if cl.get('stranger_dead'):
+            if dead is None:
+                step = res.get('step', -1)
+                dead = set((job['h'][step].get('exp') or {}).get('sdead') or []) if 0 <= step < len(job['h']) else set()
+            if d['what'] not in dead:
+                return False
+        if 'what_regex' in cl and not re.search(cl['what_regex'], d['what']):
+            return False
+        return True
+    first = None
+    for d in mine:
+        k = next((k for k in cands if explains(k, d)), None)
+        if k is None:
+            return None
+        first = first or k
+    return first
 
 
 def describe(h):
@@ -316,7 +339,10 @@ PLAN_C01 = dict(
               thorough=[SIM(1000, 16), SIM(500, 16, **P), SIM(800, 18, **MS)]),
           gen('Gen_NBind.cfg', 'MC_NBind.tla', universe_extra=NBIND_X,
               quick=[SIM(40, 12)],
-              thorough=[SIM(600, 14)])],
+              thorough=[SIM(600, 14)]),
+          gen('Gen_In.cfg', 'MC_In.tla',
+              quick=[SIM(50, 14), SIM(25, 16, **MS)],
+              thorough=[EXH(6, 3000), SIM(1200, 16), SIM(600, 18, **MS)])],
 )
 
 PLAN_C09 = dict(
@@ -330,8 +356,11 @@ PLAN_C09 = dict(
               thorough=[SIM(1500, 16, **P)]),
           gen('Gen_NBind.cfg', 'MC_NBind.tla', universe_extra=NBIND_X,
               quick=[SIM(40, 12, **P)],
-              thorough=[SIM(600, 14, **P)])],
-    assume=['the transaction universes contain no stranger-owned inputs (a conflict on a stranger\'s coin is invisible to the wallet by construction)'],
+              thorough=[SIM(600, 14, **P)]),
+          gen('Gen_In.cfg', 'MC_In.tla',
+              quick=[SIM(80, 14, **P)],
+              thorough=[EXH(6, 3000, **P), SIM(2000, 16, **P)])],
+    assume=['theme "incoming" has stranger-owned inputs: a conflict on a stranger\'s coin is invisible to the follower (K-C09-2); the model transcribes the code\'s purge rule and the ideal (Settle) is compared separately'],
 )
 
 PLAN_C10 = dict(
